@@ -359,6 +359,7 @@ __attribute__((used)) void *ctxp_thread_main(void *arg, uint64_t entry_rsp) {
 }
 
 typedef struct creq { myth_thread_t th; targ ta; } creq;
+static int g_default_child_first;      /* does an attribute-less creation run the child first? (read after init) */
 
 static void op_create(void *p) {
   creq *c = p;
@@ -367,7 +368,11 @@ static void op_create(void *p) {
   myth_thread_attr_init(&attr);
   attr.child_first = c->ta.entry_kind == 0;
   attr.custom_data_size = 0; attr.custom_data = 0;
-  if (myth_create_ex(&c->th, &attr, ctxp_thread_tramp, &c->ta) != 0) { fprintf(stderr, "myth_create_ex failed\n"); exit(2); }
+  /* every other child-first creation goes through the attribute-less path (attr == NULL: the stack
+     comes from the default pool, whose top is base + default size - 16, not page rounded) */
+  static volatile long n_cf;
+  int plain = c->ta.entry_kind == 0 && g_default_child_first && (__sync_fetch_and_add(&n_cf, 1) & 1);
+  if (myth_create_ex(&c->th, plain ? 0 : &attr, ctxp_thread_tramp, &c->ta) != 0) { fprintf(stderr, "myth_create_ex failed\n"); exit(2); }
 }
 static void op_join(void *p) { creq *c = p; void *r = 0; if (myth_join(c->th, &r) != 0) { fprintf(stderr, "myth_join failed\n"); exit(2); } }
 static void op_yield(void *p) { (void)p; myth_yield(); }
@@ -568,6 +573,7 @@ int main(int argc, char **argv) {
 #endif
   myth_init();
   nw = myth_get_num_workers();
+  { myth_thread_attr_t da; myth_thread_attr_init(&da); g_default_child_first = da.child_first != 0; }
   {
     /* the main thread is itself a user-level thread (on the process stack): run half of the
        rounds directly in it and half in a created root thread */
